@@ -221,7 +221,7 @@ func genAgg(g *Gen, cols []qcol) gagg {
 				cand = append(cand, i)
 			}
 		}
-		if g.Chance(1, 25) { // a rare negative case: no overload for this argument type
+		if g.Chance(1, 60) { // a rare negative case: no overload for this argument type
 			return colRef(cols, g.Intn(len(cols))), true
 		}
 		if len(cand) == 0 {
@@ -324,6 +324,7 @@ func genOrderLimit(g *Gen, outCols []qcol, nrowsHint int, pOrder int) (ordTok, o
 }
 
 type gopts struct {
+	having    bool // the block carries a HAVING clause (encoded as an outer block over the bare grouping block)
 	aliasAll  bool
 	trigger   string // "" | E | C<k> | CE<k>
 	pOrder    int    // out of 10
@@ -359,8 +360,12 @@ func genGroupBlock(g *Gen, srcTok, srcSQL string, cols []qcol, o gopts) gblock {
 	for j := range keys {
 		if g.Chance(4, 5) {
 			items = append(items, item{true, j})
+			if g.Chance(1, 8) {
+				items = append(items, item{true, j}) // the same key twice in the select list
+			}
 		}
 	}
+	keySeen := map[int]int{}
 	for i := 0; i < naggs; i++ {
 		items = append(items, item{false, i})
 	}
@@ -378,7 +383,11 @@ func genGroupBlock(g *Gen, srcTok, srcSQL string, cols []qcol, o gopts) gblock {
 			k := keys[it.idx]
 			if o.aliasAll || g.Chance(3, 4) {
 				alias = fmt.Sprintf("k%d", it.idx)
+				if keySeen[it.idx] > 0 {
+					alias += "b"
+				}
 			}
+			keySeen[it.idx]++
 			selToks = append(selToks, strconv.Itoa(it.idx))
 			s := k.sql
 			if alias != "" {
@@ -416,6 +425,14 @@ func genGroupBlock(g *Gen, srcTok, srcSQL string, cols []qcol, o gopts) gblock {
 		dTok, dSQL = "D1", "DISTINCT "
 	}
 	ordTok, ordSQL, limTok, limSQL, ordered := genOrderLimit(g, outCols, o.nrowsHint, o.pOrder)
+	havTok, havSQL := "", ""
+	if o.having {
+		// GroupBy -> Map -> Filter(HAVING) -> Distinct -> ORDER BY / LIMIT: the same plan as an outer `SELECT * … WHERE`
+		w := genGPred(g, outCols, 2)
+		havSQL = " HAVING " + w.sql
+		havTok = fmt.Sprintf(" %s * %s %s %s", w.tok, dTok, ordTok, limTok)
+		dTok, ordTok, limTok = "D0", "O0", "-"
+	}
 	grpSQL := ""
 	if len(keys) > 0 {
 		grpSQL = " GROUP BY " + strings.Join(keySQL, ", ")
@@ -438,7 +455,10 @@ func genGroupBlock(g *Gen, srcTok, srcSQL string, cols []qcol, o gopts) gblock {
 	}
 	tok := fmt.Sprintf("grp %s %s K%d%s A%d%s S%d%s %s %s %s %s", srcTok, whrTok, len(keys), join(keyToks), len(aggs), join(aggToks),
 		len(selToks), join(selToks), dTok, ordTok, limTok, trigTok)
-	sql := fmt.Sprintf("SELECT %s%s FROM %s q%d%s%s%s%s%s", dSQL, strings.Join(selSQL, ", "), srcSQL, aliasCounter, whrSQL, grpSQL, trigSQL, ordSQL, limSQL)
+	if o.having {
+		tok = "osel " + tok + havTok
+	}
+	sql := fmt.Sprintf("SELECT %s%s FROM %s q%d%s%s%s%s%s%s", dSQL, strings.Join(selSQL, ", "), srcSQL, aliasCounter, whrSQL, grpSQL, havSQL, trigSQL, ordSQL, limSQL)
 	return gblock{tok: tok, sql: sql, cols: outCols, ordered: ordered}
 }
 
@@ -515,7 +535,8 @@ func genGroupCase(g *Gen) string {
 		trigger = fmt.Sprintf("CE%d", 1+g.Intn(3))
 	}
 	outer := g.Chance(1, 3)
-	o := gopts{aliasAll: outer, trigger: trigger, pOrder: 4, nrowsHint: len(t.rows)}
+	having := !outer && g.Chance(1, 6)
+	o := gopts{aliasAll: outer || having, having: having, trigger: trigger, pOrder: 4, nrowsHint: len(t.rows)}
 	srcTok, srcSQL, srcCols := "tbl", file, t.cols
 	if !hasKind(t.cols, func(k byte) bool { return !plainKind(k) }) && g.Chance(1, 6) {
 		// a nested single-source block as the FROM of the grouping block (generator of C01)
@@ -552,7 +573,7 @@ func genGroupCase(g *Gen) string {
 	mode := Pick(g, modes)
 	table := mode == "batch_table" || mode == "live_table"
 	opt := "1"
-	if g.Chance(1, 5) || (outer && hasKind(t.cols, isMixedKind)) {
+	if g.Chance(1, 5) || ((outer || having) && hasKind(t.cols, isMixedKind)) {
 		// (the optimizer prunes aggregates the outer block does not use, and with them their run-time type errors)
 		opt = "0"
 	}
